@@ -777,3 +777,77 @@ Section Quiet.
     exact (h_top_spec forest forest O (mkFs os_empty 1) [] H eq_refl).
   Qed.
 End Quiet.
+
+(* ================================================================ nesting recovered from the events *)
+(* depth of every open event: opens so far minus closes so far; a void (self-closed) element does not nest *)
+Fixpoint nest (d : nat) (evs : list sev) : list (nat * str) :=
+  match evs with
+  | [] => []
+  | SOpen n true :: r => (d, n) :: nest d r
+  | SOpen n false :: r => (d, n) :: nest (S d) r
+  | SClose _ :: r => nest (pred d) r
+  end.
+
+(* preorder walk with depths *)
+Fixpoint preorder_nodes (d : nat) (n : anode) : list (nat * anode) :=
+  match n with
+  | ANode _ _ _ _ ch _ => (d, n) :: flat_map (preorder_nodes (S d)) ch
+  end.
+Definition node_name (n : anode) : str := match an_name n with Some x => x | None => [] end.
+
+Fixpoint named_tree (n : anode) : bool :=
+  match n with
+  | ANode nm _ _ _ ch _ => truthy_s nm && forallb named_tree ch
+  end.
+
+Lemma preorder_nodes_eq d n : preorder_nodes d n = (d, n) :: flat_map (preorder_nodes (S d)) (an_children n).
+Proof. destruct n; reflexivity. Qed.
+Lemma named_tree_eq n : named_tree n = truthy_s (an_name n) && forallb named_tree (an_children n).
+Proof. destruct n; reflexivity. Qed.
+
+Definition dn (c : oconfig) (x : nat * anode) : nat * str := (fst x, tag_name c (node_name (snd x))).
+
+Lemma nest_named c n d rest :
+  truthy_s (an_name n) = true ->
+  (forall d R, nest d (flat_map (tree_events c) (an_children n) ++ R)
+               = map (dn c) (flat_map (preorder_nodes d) (an_children n)) ++ nest d R) ->
+  nest d (tree_events c n ++ rest) = map (dn c) (preorder_nodes d n) ++ nest d rest.
+Proof.
+  intros Hn Hk. rewrite tree_events_eq, preorder_nodes_eq. cbn [map]. unfold dn at 1. cbn [fst snd].
+  unfold node_name. destruct (an_name n) as [[|n0 nm]|]; try discriminate.
+  destruct (self_closed n) eqn:Es.
+  - assert (E : an_children n = []).
+    { unfold self_closed in Es. destruct (an_children n); [reflexivity|]. rewrite andb_false_r in Es. discriminate. }
+    rewrite E. reflexivity.
+  - cbn [app nest]. f_equal. rewrite <- app_assoc, Hk. cbn [app nest pred]. reflexivity.
+Qed.
+
+Lemma nest_kids c : forall l,
+  Forall (fun n => named_tree n = true -> forall d rest,
+            nest d (tree_events c n ++ rest) = map (dn c) (preorder_nodes d n) ++ nest d rest) l ->
+  forallb named_tree l = true -> forall d R,
+  nest d (flat_map (tree_events c) l ++ R) = map (dn c) (flat_map (preorder_nodes d) l) ++ nest d R.
+Proof.
+  induction l as [|x l IHl]; intros HF Hl d R; [reflexivity|].
+  inversion HF; subst. cbn [forallb] in Hl. apply andb_true_iff in Hl. destruct Hl as [Hx Hl].
+  cbn [flat_map]. rewrite <- app_assoc, (H1 Hx), (IHl H2 Hl), map_app, <- app_assoc. reflexivity.
+Qed.
+
+Lemma nest_tree c : forall n, named_tree n = true -> forall d rest,
+  nest d (tree_events c n ++ rest) = map (dn c) (preorder_nodes d n) ++ nest d rest.
+Proof.
+  induction n as [nm v rp at_ ch sc IHch] using anode_ind2. intros Hn d rest.
+  rewrite named_tree_eq in Hn. apply andb_true_iff in Hn. destruct Hn as [Hnm Hch].
+  apply nest_named; [exact Hnm|]. intros d' R. apply nest_kids; assumption.
+Qed.
+
+Theorem nest_forest c forest : forallb named_tree forest = true ->
+  nest 0 (flat_map (tree_events c) forest)
+  = map (dn c) (flat_map (preorder_nodes 0) forest).
+Proof.
+  intros H. rewrite <- (app_nil_r (flat_map (tree_events c) forest)).
+  rewrite <- (app_nil_r (map _ _)). change (@nil (nat * str)) with (nest 0 []).
+  generalize (@nil sev). induction forest as [|x l IH]; intros R; [reflexivity|].
+  cbn [forallb] in H. apply andb_true_iff in H. destruct H as [Hx Hl].
+  cbn [flat_map]. rewrite <- app_assoc, (nest_tree c x Hx), (IH Hl), map_app, <- app_assoc. reflexivity.
+Qed.
